@@ -398,6 +398,16 @@ fn check_c17_with(
             // the same panic with and without faults: another property's business (§3.9)
             continue;
         }
+        if st.failure_in_op
+            && st.only_interrupted_seek
+            && b_owned.as_ref().map(|b| *b == st.out).unwrap_or(false)
+        {
+            // A transient `Interrupted` from seek that the code retried, with exactly the
+            // fault-free answer: by the convention the harness itself applies to reads
+            // (Interrupted means "try again") this is not a swallowed failure. Carrying on
+            // *without* retrying the seek gives a different answer and is still reported.
+            continue;
+        }
         if st.failure_in_op {
             // (b) a delivered failure must surface as an error
             if st.out.tag != Tag::Err {
@@ -456,6 +466,9 @@ fn variants_for(kind: u8, rng: &mut Rng) -> Vec<(Fault, bool)> {
         ErrorKind::WouldBlock,
         ErrorKind::PermissionDenied,
         ErrorKind::BrokenPipe,
+        ErrorKind::Unsupported,
+        ErrorKind::InvalidInput,
+        ErrorKind::NotSeekable,
     ]);
     let other = ErrorKind::Other;
     if kind == 0 {
@@ -635,7 +648,7 @@ pub fn run_exhaustive(
         return C17Outcome { violation: None };
     }
     let mut vr = Rng::sub(wl.reader.run_seed, 4);
-    // One generated workload in eight is enumerated under a *legally misbehaving* reader:
+    // One generated workload in four is enumerated under a *legally misbehaving* reader:
     // the fault placements are then the I/O calls of that reader's fault-free run (several
     // per range), so every single fault is also met in the middle of a chopped-up transfer.
     let mut wl = wl;
@@ -813,12 +826,12 @@ pub fn run_multi(seed: u64, run: u64, tier: &str, samples: &Samples, rep: &mut R
             fr.below(span as u64) as u32
         };
         let fault = match fr.below(6) {
-            0 => Fault::Fail { kind: *fr.pick(&KINDS[..6]), sticky: false },
-            1 => Fault::Fail { kind: *fr.pick(&KINDS[..6]), sticky: fr.chance(1, 2) },
+            0 => Fault::Fail { kind: *fr.pick(&KINDS[..crate::reader::READ_KINDS]), sticky: false },
+            1 => Fault::Fail { kind: *fr.pick(&KINDS[..crate::reader::READ_KINDS]), sticky: fr.chance(1, 2) },
             2 => Fault::EofEarly { sticky: fr.chance(1, 4) },
             3 => Fault::PartialThenFail {
                 k: fr.range(1, 16) as u32,
-                kind: *fr.pick(&KINDS[..6]),
+                kind: *fr.pick(&KINDS[..crate::reader::READ_KINDS]),
             },
             4 => Fault::Fail { kind: ErrorKind::UnexpectedEof, sticky: false },
             _ => Fault::EofEarly { sticky: false },
